@@ -254,10 +254,11 @@ func (tc *traceClient) Call(x *core.TSCtx, site ssa.CallInstruction, s string) (
 			if len(cc.Args) == 1 {
 				if u, ok := core.Strip(cc.Args[0]).(*ssa.UnOp); ok {
 					if g, ok := u.X.(*ssa.Global); ok {
+						gs, gn := tc.c.sslReplies()
 						switch g {
-						case tc.c.P.Global("wire", "sslSupported"):
+						case gs:
 							ev = "RAW:S"
-						case tc.c.P.Global("wire", "sslUnsupported"):
+						case gn:
 							ev = "RAW:N"
 						}
 					}
